@@ -846,6 +846,14 @@ def run_c16(ctx):
                     args = [pos] + ([mk(7)] if m in ("equal_at", "replace") else [])
                     cs.append({"id": "hugepos-%04d" % k, "api": "stack", "elem": elem, "init": [mk(j) for j in range(n)],
                                "ops": [{"m": m, "args": args}, {"m": "size", "args": []}, {"m": "to_string", "args": []}]}); k += 1
+    # every pair of texts of different byte lengths, ASCII and not, as stack element and as probe
+    odd = [{"k": "id", "v": "\u00e9"}, {"k": "id", "v": "a"}, {"k": "int", "v": 7}, lst([{"k": "id", "v": "\u00fc"}, {"k": "int", "v": 1}]), lst([{"k": "id", "v": "x"}, {"k": "int", "v": 1}]),
+           {"k": "id", "v": "\U0001d11e\u20ac"}, {"k": "id", "v": "\u20ac"}, {"k": "id", "v": "ab"}, {"k": "id", "v": "abc"}, {"k": "id", "v": "a\u00e9"}, {"k": "id", "v": "\u00e9a"}, lst([])]
+    for a_i, a in enumerate(odd):
+        for b_i, b in enumerate(odd):
+            cs.append({"id": "textpair-%02d-%02d" % (a_i, b_i), "api": "stack", "elem": "item", "init": [a, b],
+                       "ops": [{"m": "equal_at", "args": [0, b]}, {"m": "equal_at", "args": [1, a]}, {"m": "equal_at", "args": [0, a]}, {"m": "last_eq", "args": [b]},
+                               {"m": "to_string", "args": []}, {"m": "replace", "args": [0, b]}, {"m": "equal_at", "args": [0, b]}]})
     # elements nested deeper than any limit one might think of (printing and the equality probe pass through item.rs)
     for k, n in enumerate((3, 100, 127, 128, 129, 130, 200, 300) if q else (1, 2, 3, 50, 100, 126, 127, 128, 129, 130, 131, 200, 255, 256, 257, 300, 400)):
         cs.append({"id": "deep-%04d" % k, "api": "stack", "elem": "item", "init": [{"k": "int", "v": 5}] * (k % 3),
@@ -1613,7 +1621,9 @@ def run_c15(ctx):
         s2["exec"] = prog + [idn(top)]
         cs.append({"id": "aliasinto-prog-%d" % k, "pre": s2, "acts": [{"a": "steps", "k": 60}], "predict": "bounded"})
     # EXEC.CMD starts its command and goes on: a command that keeps running (or keeps writing) must not hold the step
-    for k, names in enumerate((["9", "sleep"], ["sleep 9; true", "-c", "sh"])):
+    # (a step blocked on a sleeping child burns no CPU time: it is cut by the supervisor's no-progress rule, ten times
+    # timeout_case of wall-clock time; the started commands end by themselves after 75 s)
+    for k, names in enumerate((["75", "sleep"], ["sleep 75; true", "-c", "sh"])):
         s = gen.empty_state()
         s["name"] = names; s["int"] = [len(names) - 1]
         s["exec"] = [ins("EXEC.CMD"), I(1)]
